@@ -455,6 +455,8 @@ class StmtMixin:
 
     # -------------------------------------------------------------------- loops
     def loop_spec(self, node):
+        if id(node) not in self.loop_ordinals:
+            raise Unsupported("loop inside an inlined function (give that function a contract)")
         idx = self.loop_ordinals[id(node)]
         spec = self.contract.loops.get(idx)
         return idx, spec
